@@ -899,8 +899,10 @@ func (pr *privRun) wireExprs(pc *pcase, fs []pframe) (names, exprs []string, cou
 			continue
 		}
 		exprs = append(exprs, s)
-		if k := strings.Index(s, " = "); k >= 0 {
-			names = append(names, s[:k])
+		if k := strings.Index(s, "="); k >= 0 {
+			// (the name is what precedes the first '='; blanks around it are not part of it — the
+			// property does not fix the spacing of the rendering)
+			names = append(names, strings.TrimSpace(s[:k]))
 		} else {
 			names = append(names, s)
 		}
@@ -1204,8 +1206,191 @@ func runPrivacy(c *Ctx) error {
 		c.Count("kind:bigsecret")
 		pr.runCase(pc)
 	}
+	// several ads through ONE Message while the stream's crypto mode changes between them: the
+	// decision "this private attribute goes under the secret marker" belongs to the moment the ad
+	// is written, not to the Message (property oracle only: canaries in clear frames)
+	for i := 0; i < c.Pick(200, 4000); i++ {
+		pr.multiAd(g, i)
+	}
+	pr.scopedTypes(g)
 	if err := diffBatch(c, "privacy", pr.cases, nil); err != nil {
 		return err
 	}
 	return nil
+}
+
+// multiAd serialises 2–4 ads with opted-in private attributes through one Message on a keyed
+// stream, switching the stream between encrypting and not encrypting before each ad (and
+// sometimes while the Message already exists), with a message boundary after each ad or only at
+// the end. Oracle (C09, third sentence): on a stream that holds a session key the value of a
+// private attribute never occurs in a frame that travelled unprotected; and the receiver,
+// switched the same way, reassembles every ad.
+func (pr *privRun) multiAd(g *pgen, idx int) {
+	c := pr.c
+	defer func() {
+		if r := recover(); r != nil {
+			c.Violate(Violation{Property: "C13", Key: "C13:panic:privacy-multi", What: fmt.Sprintf("panic while serialising several ads through one Message: %v", r), Ops: []string{fmt.Sprintf("multi:%d", idx)}, Expected: "no panic", Observed: fmt.Sprint(r)})
+		}
+	}()
+	w, err := newPWorld(true, c.Rng.Intn(2) == 0, nil)
+	if err != nil {
+		return
+	}
+	m := message.NewMessageForStream(w.as)
+	nAds := 2 + c.Rng.Intn(3)
+	perAdEOM := c.Rng.Intn(2) == 0
+	var ops []string
+	var canaries []string
+	var modes []bool
+	ops = append(ops, fmt.Sprintf("# multi:%d one Message, keyed stream, %d ads, message boundary %s", idx, nAds, map[bool]string{true: "after each ad", false: "at the end"}[perAdEOM]))
+	for k := 0; k < nAds; k++ {
+		encNow := c.Rng.Intn(2) == 0
+		if k == 1 {
+			encNow = !modes[0] // the second ad always sees the other mode than the first
+		}
+		w.as.SetEncrypted(encNow)
+		modes = append(modes, encNow)
+		g.caseNo++
+		g.canNo = 0
+		cn := g.canary("v")
+		canaries = append(canaries, cn)
+		name := []string{"ClaimId", "Capability", "_condor_privTok", "TransferKey", "claimid"}[c.Rng.Intn(5)]
+		ad, err := buildAd([]pattr{{name: "Name", src: fmt.Sprintf("\"slot%d\"", k)}, {name: name, src: "\"" + cn + "\"", canary: cn}, {name: "MyType", src: "\"Machine\""}})
+		if err != nil {
+			return
+		}
+		ops = append(ops, fmt.Sprintf("chan 1 %s", b01(encNow)), fmt.Sprintf("put-ad#%d IncludePrivate Name=slot%d %s=%q", k, k, name, cn))
+		if err := m.PutClassAdWithOptions(bg, ad, &message.PutClassAdConfig{Options: message.PutClassAdIncludePrivate}); err != nil {
+			c.Violate(Violation{Property: "C09", Key: "C09:multi:send-failed", What: "serialising an ad through a Message that already carried one failed", Ops: ops, Expected: "ok", Observed: err.Error()})
+			return
+		}
+		if perAdEOM || k == nAds-1 {
+			// the bytes buffered for this ad leave under the mode it was written in
+			if err := m.FinishMessage(bg); err != nil {
+				c.Violate(Violation{Property: "C09", Key: "C09:multi:finish-failed", What: "FinishMessage failed", Ops: ops, Expected: "ok", Observed: err.Error()})
+				return
+			}
+			ops = append(ops, "finish")
+			if k != nAds-1 {
+				m = pickMessage(c, m, w)
+			}
+		} else if modes[k] {
+			// nothing may linger in the buffer across a switch from encrypting to clear: an
+			// application that changes the mode mid-message flushes first (FlushFrame)
+			if err := m.FlushFrame(bg, false); err != nil {
+				return
+			}
+			ops = append(ops, "flush")
+		}
+	}
+	fs, err := w.split(w.ac.AllOut)
+	if err != nil {
+		c.Violate(Violation{Property: "C09", Key: "C09:multi:wire-unparseable", What: "the bytes written do not parse as frames", Ops: ops, Expected: "frames", Observed: err.Error()})
+		return
+	}
+	ops = append(ops, "# wire: "+abbrevStrs([]string{showPFrames(fs)}))
+	for k, cn := range canaries {
+		for _, f := range fs {
+			if !f.sealed && bytes.Contains(f.payload, []byte(cn)) {
+				if multiViolations++; multiViolations > 2 {
+					c.Count("violations_not_listed:C09:multi:secret-in-clear-frame")
+					continue
+				}
+				c.Violate(Violation{Property: "C09", Key: "C09:multi:secret-in-clear-frame", What: fmt.Sprintf("ad #%d of one Message: the value of an opted-in private attribute travelled in an unprotected frame although the stream holds a session key (stream was %s when the ad was written; the first ad of the Message was written while it was %s)",
+					k, map[bool]string{true: "encrypting", false: "not encrypting"}[modes[k]], map[bool]string{true: "encrypting", false: "not encrypting"}[modes[0]]), Ops: ops,
+					Expected: "the value only inside protected frames", Observed: "cleartext frame contains " + cn})
+			}
+		}
+	}
+	c.Distinct(strings.Join(ops, "\n"), true)
+	c.Count("kind:multi-ad")
+}
+
+var multiViolations int
+
+// scopedTypes: the type trailer is EVALUATED; an expression in it may reach, through the TARGET or
+// PARENT scope of the ad, a private attribute of ANOTHER ad (the match candidate, the enclosing
+// ad). The serialised ad itself may hold no private attribute at all. Oracle: the canary value of
+// the other ad's private attribute does not occur in the emitted bytes (nor in any plaintext).
+func (pr *privRun) scopedTypes(g *pgen) {
+	c := pr.c
+	for _, scope := range []string{"TARGET", "PARENT"} {
+		for _, own := range []bool{false, true} {
+			for st := 0; st < 3; st++ {
+				for _, opts := range []int{0, 32} {
+					g.caseNo++
+					g.canNo = 0
+					cn, cown := g.canary("v"), g.canary("v")
+					other, err := buildAd([]pattr{{name: "Name", src: "\"other\""}, {name: "ClaimId", src: "\"" + cn + "\"", canary: cn}})
+					if err != nil {
+						return
+					}
+					attrs := []pattr{{name: "Name", src: "\"slot1\""}, {name: "MyType", src: scope + ".ClaimId"}, {name: "TargetType", src: "strcat(\"t\", " + scope + ".ClaimId)"}}
+					if own {
+						attrs = append(attrs, pattr{name: "Capability", src: "\"" + cown + "\"", canary: cown})
+					}
+					ad, err := buildAd(attrs)
+					if err != nil {
+						return
+					}
+					if scope == "TARGET" {
+						ad.SetTarget(other)
+					} else {
+						ad.SetParent(other)
+					}
+					pc := &pcase{label: fmt.Sprintf("scoped-types:%s:own-private=%v:s%d:o%d", scope, own, st, opts), opts: opts, keyed: st != 0, encrypt: st == 1}
+					fs, wire, _, err := serialise(pc, ad)
+					if err != nil {
+						continue
+					}
+					ops := []string{"# " + pc.label, fmt.Sprintf("# ad: Name=\"slot1\"; MyType=%s.ClaimId; TargetType=strcat(\"t\",%s.ClaimId)%s;  %s ad: ClaimId=%q", scope, scope, map[bool]string{true: "; Capability=<private>", false: ""}[own], scope, cn),
+						fmt.Sprintf("opt %d", opts), fmt.Sprintf("chan %s %s", b01(pc.keyed), b01(pc.encrypt)), "send -> " + abbrevStrs([]string{showPFrames(fs)})}
+					leak := bytes.Contains(wire, []byte(cn))
+					for _, f := range fs {
+						if bytes.Contains(f.payload, []byte(cn)) {
+							leak = true
+						}
+					}
+					c.Distinct(pc.label, true)
+					c.Count("kind:scoped-types")
+					// a PUBLIC attribute of the scope still reaches the trailer (the evaluation scopes are kept)
+					if opts == 0 && !own {
+						pub, err := buildAd([]pattr{{name: "Name", src: "\"slot1\""}, {name: "MyType", src: scope + ".Name"}})
+						if err == nil {
+							if scope == "TARGET" {
+								pub.SetTarget(other)
+							} else {
+								pub.SetParent(other)
+							}
+							if pfs, _, _, err := serialise(pc, pub); err == nil {
+								found := false
+								for _, f := range pfs {
+									if bytes.Contains(f.payload, []byte("other\x00")) {
+										found = true
+									}
+								}
+								if !found {
+									c.Violate(Violation{Property: "C09", Key: "C09:type-trailer-scope-lost:" + scope, What: "MyType = " + scope + ".Name (a public attribute of the scope ad) no longer evaluates: the receiver would not reassemble the sender's type name", Ops: ops,
+										Expected: "MyType \"other\" in the trailer", Observed: abbrevStrs([]string{showPFrames(pfs)})})
+								}
+							}
+						}
+					}
+					if leak {
+						c.Violate(Violation{Property: "C09", Key: "C09:type-trailer-scope:" + scope, What: fmt.Sprintf("the evaluated type trailer carries the value of a private attribute of the ad's %s scope (another ad's ClaimId) — without any opt-in for it", scope), Ops: ops,
+							Expected: "the private value occurs nowhere in the emitted bytes", Observed: "canary " + cn + " found"})
+					}
+				}
+			}
+		}
+	}
+}
+
+// pickMessage: after a message boundary the application either keeps using the same Message
+// object or makes a new one on the same stream
+func pickMessage(c *Ctx, m *message.Message, w *pworld) *message.Message {
+	if c.Rng.Intn(2) == 0 {
+		return message.NewMessageForStream(w.as)
+	}
+	return m
 }
